@@ -730,6 +730,18 @@ def check_C03(run, replay=None):
             ops += ["delete $s %s" % hxn(v_), "iter $s"]
         ops += ["open $s %s RWC -> $n" % hxn("AFTER.X"), "write $n 10 1", "close $n", "iter $s", "find $s %s" % hxn("F%d.X" % (16 * meta["spc"] * 2 + 1))]
         env.add_script("slot15-%03d" % j, path, (1, 4, 4), ops, 5000, (), meta)
+    # directed: a read that fails AFTER the device filled the buffer, right behind a FAT update (the FAT sector is the
+    # cached block), followed by an allocation for another file: the fault index sweeps over the first write's calls
+    for j, gname in enumerate(["f16_min", "f32_min"]):
+        geo = fsgen.geometry(rng, None, [gname])
+        img, meta = fsgen.build_image(rng, geo, populate=1)
+        path, dev = env.new_image(img, "fatstale%d" % j)
+        meta = dict(meta); meta["dev0"] = dev
+        hxn = fsgen.hx
+        ops = ["openvol %d -> $v" % meta["slot"], "openroot $v -> $r", "open $r %s RWC -> $a" % hxn("FA.NEW"), "open $r %s RWC -> $b" % hxn("FB.NEW"),
+               "write $a 100 1", "write $b 100 2", "write $a 700 3", "write $b 700 4", "close $a", "close $b", "iter $r"]
+        for fi in range(6, 30 if run.tier == "quick" else 60):
+            env.add_script("fatstale", path, (1, 4, 4), ops, 5000, [fi], meta, raii=False)
     # histories with ONE transient device fault ("after every API call returns (success or error)"): the failed call may
     # leave what a power cut leaves, nothing worse, and the calls after it must not make it worse
     F.std_scenarios(env, rng, max(n // 5, 10), fsgen.profile(weights=dict(write=14, open=12, close=6, delete=5, mkdir=5, flush=3, read=3, seek=2, find=2, iter=2, bad=0, remount=0, io=0)),
@@ -887,6 +899,18 @@ def check_C04(run, replay=None):
                     nops=(16, 36), want=["f16_min", "f16_spc2", "f32_min", "f16_spc8"], per_image=2,
                     faults_fn=lambda r, ops: sorted({5 + r.below(60), 20 + r.below(120)}))
     retry_scripts(env, rng, 8 if run.tier == "quick" else 40)
+    # directed: block 0 of a file is read (cached), the read of block 1 fails after the device filled the buffer, then a
+    # FEW bytes of block 1 are overwritten (read-modify-write): every other byte of block 1 must survive; fault index swept
+    for j, gname in enumerate(["f16_min", "f32_min"]):
+        geo = fsgen.geometry(rng, None, [gname])
+        img, meta = fsgen.build_image(rng, geo, populate=1, ensure_big=True)
+        path, dev = env.new_image(img, "stalew%d" % j)
+        meta = dict(meta); meta["dev0"] = dev
+        hxn = fsgen.hx
+        ops = ["openvol %d -> $v" % meta["slot"], "openroot $v -> $r", "open $r %s RWA -> $f" % hxn("BIGGER.BIN"), "seekstart $f 0", "read $f 512", "read $f 512",
+               "seekstart $f 519", "write $f 4 9", "seekstart $f 3", "write $f 5 8", "seekstart $f 0", "read $f 1024", "close $f"]
+        for fi in range(3, 16 if run.tier == "quick" else 40):
+            env.add_script("stalew", path, (1, 4, 4), ops, 5000, [fi], meta, raii=False)
     env.run_all(writes=True)
     bad = 0
     for sc in env.scripts:
@@ -939,6 +963,21 @@ def check_C05(run, replay=None):
             ops += ["close $f%d" % c, "delete $r %s" % fsgen.hx("FILL.DAT")]
         env.add_script("cyc%03d" % j, path, (1, 4, 4), ops, 5000, (), meta)
     rollback_scripts(env, rng, 6 if run.tier == "quick" else 24)
+    # directed: files of length 0 that still own a cluster (truncated by an open, or only ever written with an empty
+    # buffer) are deleted; pre-existing files are truncated then deleted; everything closed at the end
+    for j, gname in enumerate(["f16_min", "f32_min", "f16_spc2"]):
+        geo = fsgen.geometry(rng, None, [gname])
+        img, meta = fsgen.build_image(rng, geo, populate=1, ensure_big=True)
+        path, dev = env.new_image(img, "zerolen%d" % j)
+        meta = dict(meta); meta["dev0"] = dev
+        hxn = fsgen.hx
+        ops = ["openvol %d -> $v" % meta["slot"], "openroot $v -> $r",
+               "open $r %s RWC -> $a" % hxn("Z1.NEW"), "write $a 900 1", "close $a", "open $r %s RWT -> $b" % hxn("Z1.NEW"), "close $b", "delete $r %s" % hxn("Z1.NEW"),
+               "open $r %s RWC -> $c" % hxn("Z2.NEW"), "write $c 0 2", "close $c", "delete $r %s" % hxn("Z2.NEW"),
+               "open $r %s RWCT -> $d" % hxn("BIGGER.BIN"), "close $d", "delete $r %s" % hxn("BIGGER.BIN"),
+               "open $r %s RWC -> $e" % hxn("Z3.NEW"), "write $e 600 3", "close $e", "open $r %s RWT -> $f" % hxn("Z3.NEW"), "write $f 0 4", "close $f", "delete $r %s" % hxn("Z3.NEW"),
+               "iter $r", "closedir $r", "closevol $v"]
+        env.add_script("zerolen%03d" % j, path, (1, 4, 4), ops, 5000, (), meta)
     env.run_all(writes=True)
     bad = 0
     for sc in env.scripts:
